@@ -546,7 +546,9 @@ def gen_operator_spec(rng, version=None, rv=None, force_n=None, perm=False):
         else:
             mod = rng.choice([None, None, 'w', 's', 'b', 'n'])
             r_mod = rng.random()
-            if any(b[e][1] == bufrgen.STRING_UNIT for e in prefix[k - nb:]) and r_mod < 0.5:
+            # (with the bits of the bitmap under a delayed replication their number is data, not program: the
+            # whole prefix stands for the window)
+            if any(b[e][1] == bufrgen.STRING_UNIT for e in prefix[k - (k if variant == 'dbm' else nb):]) and r_mod < 0.5:
                 mod = 'n'
             if mod == 'w':
                 ids.append(201000 + rng.choice([126, 130, 132]))
